@@ -152,6 +152,10 @@ def real_build(root: Path, fmt: str, out: Path) -> dict[str, Any]:
     from poetry.core.masonry.builders.sdist import SdistBuilder
     from poetry.core.masonry.builders.wheel import WheelBuilder
     _quiet()
+    import tempfile
+    old_tmpdir = tempfile.tempdir
+    out.mkdir(parents=True, exist_ok=True)
+    tempfile.tempdir = str(out)      # the temporary .whl a failing build leaves behind stays inside the scratch tree
     try:
         poetry = Factory().create_poetry(root)
         b = SdistBuilder(poetry) if fmt == "sdist" else WheelBuilder(poetry)
@@ -159,6 +163,8 @@ def real_build(root: Path, fmt: str, out: Path) -> dict[str, Any]:
         return {"ok": True, "path": p}
     except Exception as e:  # noqa: BLE001
         return {"ok": False, "err": err_name(e), "msg": str(e)[:200]}
+    finally:
+        tempfile.tempdir = old_tmpdir
 
 
 def sdist_names(p: Path) -> list[tuple[str, bool]]:
